@@ -151,6 +151,9 @@ def run(rep, tier, build, replay=None):
         'stats': stats,
     })
     rep.samples.append({'export_set': cases[0]['export_sets'][-1], 'versions': versions})
+    # tie of Model/Export.v to wn._export on fresh databases (incl. databases holding extensions of the exported lexicon)
+    import exportmodel
+    exportmodel.run_correspondence(rep, random.Random(common.seed() * 7919 + 33), 12 if tier == 'quick' else 150, versions, 'c03x')
 
 
 def strip_frames(st):
